@@ -54,18 +54,20 @@ static void body(mvprog::PT& p) {
         }
         int n = ops[++i] - '0';
         if (op == 'd') { while (G->priv_ready[n].load() == 0) {} G->priv[n]->signal(1); p.result += "d"; G->log += "d"; continue; }
-        if (op == 's') { G->signalled += n; G->sem->signal(n); p.result += "s"; G->log += char('a' + p.idx); G->log += 's'; continue; }
+        if (op == 's') { pmc_log("  [+%llu] T%d signal(%d) count before=%llu", (unsigned long long)(mv_now() - MV_T0), p.idx, n, (unsigned long long)G->sem->count()); G->signalled += n; G->sem->signal(n); p.result += "s"; G->log += char('a' + p.idx); G->log += 's'; continue; }
         if (op == 'i') { if (n < (int)G->prog.pts.size() && G->prog.pts[n].th) { G->interrupts[n]++; thread_interrupt(G->prog.pts[n].th, EINTR); } p.result += "i"; continue; }
         // waits
         uint64_t t0 = mv_now();
         uint64_t sw0 = *(uint64_t*)&photon::get_vcpu()->switch_count;     // (cast: plain read, not a scheduling point)
         G->blocked_demand[p.idx] = n;
+        pmc_log("  [+%llu] T%d %c%d begins, count=%llu", (unsigned long long)(mv_now() - MV_T0), p.idx, op, n, (unsigned long long)G->sem->count());
         errno = 0; int r;
         uint64_t forever = FOREVER + 10000ull * (G->nwaits++ % 50);      // distinct stand-in deadlines: two "forever" waits never expire together
         if (op == 'w') r = G->gen ? G->sem->wait(n, forever) : G->sem->wait(n);
         else if (op == 'W') r = G->gen ? G->sem->wait_interruptible(n, forever) : G->sem->wait_interruptible(n);
         else { mv_register_deadline(mv_now() + TMO); r = G->sem->wait_interruptible(n, TMO); }
         int e = errno;
+        pmc_log("  [+%llu] T%d %c%d returns %d errno %d, count=%llu", (unsigned long long)(mv_now() - MV_T0), p.idx, op, n, r, e, (unsigned long long)G->sem->count());
         if (G->gen && r != 0 && e == ETIMEDOUT && op != 't') {
             // the stand-in for "forever" expired: virtual time only moves when nobody can run, so this is the quiescent state a real
             // program would be stuck in. Judge it exactly like a deadlock, then let the program go on.
@@ -167,6 +169,7 @@ static const PmcConfig CFG[] = {
     {"1i:pw2,pt1,ps1,ppi1:tdev", 2, {0,0}, {1,2}, {0,0}, {0,0}, ""},
     {"0i:w1,t1|s1|s1:tdev",   2, {1,2}, {1,1}, {0,0}, {2,2}, "three vCPUs"},
     {"0o:w1,w2,w1|s2s2",      2, {1,2}, {0,0}, {0,0}, {0,0}, "ooo with three waiters"},
+    {"0o:pW1w2,pw2w2,ps2W1",  3, {0,0}, {0,0}, {0,0}, {0,0}, "barging: a token meant for a resumed waiter is taken on the fast path; the rest must still reach a covered waiter"},
     {"0i:gen3x1:tdev",        3, {0,0}, {0,1}, {0,0}, {0,0}, "generated: every 3-thread program with one op each from {w1,w2,W1,t1,t2,s1,s2,i0,i1}, every arrival order, a timeout anywhere"},
     {"0i:gen2x2:tdev",        3, {0,0}, {0,1}, {0,0}, {0,0}, "generated: 2 threads x up to 2 ops"},
     {"0o:gen3x1:tdev",        3, {0,0}, {0,1}, {0,0}, {0,0}, "out-of-order mode"},
